@@ -98,6 +98,9 @@ func (v *VerificationVector[E, FE]) UnmarshalCBOR(data []byte) error {
 	if err != nil {
 		return errs.Wrap(err).WithMessage("failed to unmarshal verification vector")
 	}
+	if dto == nil {
+		return sharing.ErrIsNil.WithMessage("VerificationVector DTO is nil")
+	}
 	vv, err := NewVerificationVector(dto.V, nil) // pass nil to skip MSP length check, as MSP may not be available during deserialization
 	if err != nil {
 		return errs.Wrap(err).WithMessage("failed to create verification vector from deserialized value")
